@@ -41,17 +41,18 @@ async fn main() {
     if connected {
         // drain leftovers of the warm-up
         while let Ok(Some(_)) = tokio::time::timeout(Duration::from_millis(300), futures_util::StreamExt::next(&mut ice_rx)).await {}
-        for round in 0..3 {
-            bad_tx.publish(round as u64).await.unwrap();
-            bad_tx.publish(100 + round as u64).await.unwrap();
+        for (round, burst) in [2u64, 2, 48].into_iter().enumerate() {
+            for i in 0..burst {
+                bad_tx.publish(1000 * round as u64 + i).await.unwrap();
+            }
             good_tx.publish(format!("valid {round}")).await.unwrap();
-            tokio::time::sleep(Duration::from_millis(1500)).await; // let all three arrive; nobody polls meanwhile
+            tokio::time::sleep(Duration::from_millis(1500)).await; // let all of them arrive; nobody polls meanwhile
             let cw = Arc::new(CountingWaker(AtomicUsize::new(0)));
             let waker = Waker::from(cw.clone());
             let mut cx = Context::from_waker(&waker);
             let mut polls = vec![];
             let mut got = None;
-            for _ in 0..4 {
+            for _ in 0..6 {
                 n += 1;
                 match ice_rx.as_mut().poll_next(&mut cx) {
                     Poll::Ready(Some(m)) => { polls.push("Ready(Some)"); got = Some(m.body().clone()); break; }
@@ -64,7 +65,7 @@ async fn main() {
             if polls.first() == Some(&"Pending") && got.is_some() && wakes == 0 {
                 if reported.insert("pending-without-wakeup-while-valid-message-queued") {
                     rp_core::report(true, "pending-without-wakeup-while-valid-message-queued",
-                        json!({"published": ["u64 (undecodable as String)", "u64", "String (valid)"], "subscriber_polled_after_ms": 1500}),
+                        json!({"published": format!("{burst} x u64 (undecodable as String), then one valid String"), "invalid_burst": burst, "subscriber_polled_after_ms": 1500}),
                         json!({"manual_polls": polls, "wake_ups_scheduled": wakes, "message_finally_yielded": got}),
                         &["ephemeral::Stream@EphemeralStreamSubscription::poll_next.ensures#pending_only_with_wakeup"]);
                 }
@@ -72,7 +73,7 @@ async fn main() {
         }
     }
     println!("{}", json!({"summary": true, "evaluations": n.max(1), "distinct_nontrivial": if connected { 3 } else { 2 }, "exhaustive": false, "connected": connected,
-        "rule": "3 rounds of [invalid, invalid, valid] published between two real nodes, subscriber polled by hand with a counting waker after the messages arrived; a round is non-trivial when the valid message was eventually yielded",
-        "bound": "3 rounds, 2 invalid messages before each valid one", "samples": [{"published": ["u64", "u64", "String"]}], "violating_classes": reported}));
+        "rule": "3 rounds of [invalid x burst, valid] (burst = 2, 2, 48) published between two real nodes, subscriber polled by hand with a counting waker after the messages arrived; a round is non-trivial when the valid message was eventually yielded",
+        "bound": "3 rounds, 2 / 2 / 48 invalid messages before each valid one", "samples": [{"published": ["u64", "u64", "String"]}], "violating_classes": reported}));
     std::process::exit(0);
 }
